@@ -202,6 +202,11 @@ func (c *Ctx) eval(env *Env, e ast.Expr) Val {
 		i := c.eval(env, x.Index).(T)
 		switch s := b.(type) {
 		case SliceV:
+			if s.Elem == "" && s.ElemT != nil {
+				if su, ok := s.ElemT.Underlying().(*types.Struct); ok {
+					return StructPtr{c.sliceElemObj(env.st, s, i), typeKey(s.ElemT), su, s.ElemT}
+				}
+			}
 			h := c.heap(env.st, "H."+string(s.Elem), heapSort(s.Elem))
 			return c.sel(c.sel(h, s.ID), addInt(s.Off, i))
 		case SeqV:
@@ -310,6 +315,12 @@ func (c *Ctx) evalSelector(env *Env, x *ast.SelectorExpr) Val {
 			return app(SInt, "nd_rank", v.Ref)
 		case "root":
 			return c.ndRoot(v)
+		}
+		if strings.HasPrefix(x.Sel.Name, "g_") {
+			// ghost attribute of an object behind an interface: an uninterpreted
+			// function of its identity (used by interface contracts)
+			c.declareFun("ghost."+x.Sel.Name, []Sort{SInt}, SInt)
+			return app(SInt, "ghost."+x.Sel.Name, v.Ref)
 		}
 	case StructPtr:
 		// field (possibly promoted through an embedded struct)
